@@ -125,6 +125,21 @@ def quantisation(chk, w):
                 guarded = guarded and (nonzero or fn.endswith("train_tag"))
             else:
                 divs.add("NOT-A-QUOTIENT:%s" % (v,))
+        # R11.6: the running maximum is taken over the bias and the coefficients of ALL feature ids 1..=num_features
+        names_, origin_ = C.iterator_names(b, outs)
+        rn_ = C.renamer(names_)
+        cov = set()
+        for e, o in C.all_calls(outs, lambda e: (e[2] or "").endswith("feature_coefficient")):
+            nz = forms.Normalizer(it, o, rename=rn_)
+            a1 = forms.show(nz.form(e[3][1]))
+            m_ = re.fullmatch(r"(?:(\d+) \+ )?(it\d+)\.next\(\)@Some\.0", a1)
+            if m_ and "Range" in str(origin_[m_.group(2)][0]):
+                rng = C.show_arg(forms.Normalizer(it, origin_[m_.group(2)][1], rename=rn_), origin_[m_.group(2)][0])
+                cov.add((int(m_.group(1) or 0), re.sub(r"&_\d+", "&M", rng)))
+        chk.rule("R11.6", "the quantisation maximum ranges over all feature ids 1..=num_features")
+        chk.ob("R11.6", "%s:max-covers-all-features" % fn.split("::")[-1], cov == {(1, "Range{start: 0, end: <liblinear::Model as liblinear::LibLinearModel>::num_features(&M)}")},
+               "%s takes the weight maximum over feature ids (offset, range) = %s; expected id = fid + 1 for fid in 0..num_features(): a feature left out of the maximum can be quantised outside the 16-bit range" % (fn, sorted(cov)),
+               site=C.site(b), sample={"coverage": sorted(map(str, cov))})
         short = fn.split("::")[-1]
         want = "Div(WEIGHT_MAX, <f64 as core::convert::From<i32>>::from(%s))" % qmax
         chk.ob("R11.3", "%s:quotient-by-multiplier" % short, divs == {want}, "%s quantises with divisor(s) %s; expected the single multiplier weight_max / (2^(DEPTH-1)-1) = %s" % (fn, sorted(divs), want),
